@@ -39,7 +39,12 @@ template <typename Container, fcppt::optional::object_concept Optional>
       std::forward<Optional>(_source),
       [] { return Container{}; },
       [](auto &&_inner)
-      { return fcppt::container::make<Container>(fcppt::move_if_rvalue<Optional>(_inner)); });
+      {
+        // make moves out of its arguments, so give it a copy if the source is not an rvalue
+        fcppt::optional::value_type<Optional> element{fcppt::move_if_rvalue<Optional>(_inner)};
+
+        return fcppt::container::make<Container>(std::move(element));
+      });
 }
 }
 
